@@ -484,11 +484,26 @@ pub fn suite(which: &str, prop: &str, _tier: &str, _seed: u64) -> Report {
     }
     if (all || prop == "C08") && (which == "aag" || which == "aig") {
         // one byte of a symbol name or of the comment replaced by 0xff (never valid in UTF-8): the error is reported at that byte
-        let (f, doc): (&crate::fmt::Fmt, &[u8]) = if which == "aag" { (aag, b"aag 1 1 0 1 0\n2\n3\ni0 name one\no0 out\nc\nfirst line\n\nthird\nlast\n") } else { (aig, b"aig 1 1 0 1 0\n3\ni0 name one\no0 out\nc\nfirst line\n\nthird\nlast\n") };
+        // the second document has multi-byte characters in a name and in the comment: positions on the lines AFTER them are
+        // checked (on a line that has non-ASCII text in front of the position the column convention is not pinned down)
+        let f: &crate::fmt::Fmt = if which == "aag" { aag } else { aig };
+        let docs: [&[u8]; 2] = if which == "aag" {
+            [b"aag 1 1 0 1 0\n2\n3\ni0 name one\no0 out\nc\nfirst line\n\nthird\nlast\n", "aag 1 1 0 1 0\n2\n3\ni0 gr\u{f6}\u{df}e \u{20ac}\no0 out\nc\n\u{1f600} first\nsecond\n".as_bytes()]
+        } else {
+            [b"aig 1 1 0 1 0\n3\ni0 name one\no0 out\nc\nfirst line\n\nthird\nlast\n", "aig 1 1 0 1 0\n3\ni0 gr\u{f6}\u{df}e \u{20ac}\no0 out\nc\n\u{1f600} first\nsecond\n".as_bytes()]
+        };
+        for (dn, doc) in docs.iter().enumerate() {
+        let doc: &[u8] = doc;
         let text_start = doc.windows(3).position(|w| w == b"i0 ").unwrap() + 3;
         for i in text_start..doc.len() {
-            if doc[i] == b'\n' {
+            if doc[i] == b'\n' || doc[i] >= 0x80 {
                 continue;
+            }
+            {
+                let ls = doc[..i].iter().rposition(|&b| b == b'\n').map(|p| p + 1).unwrap_or(0);
+                if doc[ls..i].iter().any(|&b| b >= 0x80) {
+                    continue;
+                }
             }
             // skip the fixed parts of the symbol table (`o0 `, the `c` line): only names and comment text are free text
             let line_start = doc[..i].iter().rposition(|&b| b == b'\n').map(|p| p + 1).unwrap_or(0);
@@ -507,11 +522,12 @@ pub fn suite(which: &str, prop: &str, _tier: &str, _seed: u64) -> Report {
                 rep.runs += 1;
                 let ok = matches!(&o.end, End::Syntax { line: el, column: ec, .. } if *el == line && *ec == col);
                 if !ok {
-                    let mut a = vec![st("c08u"), i.to_string()];
+                    let mut a = vec![st("c08u"), i.to_string(), dn.to_string()];
                     a.extend(sc.args());
                     rep.fail("C08 an invalid UTF-8 byte in a name or comment is reported at its own line and column", format!("{:?} with byte {} set to 0xff", show(doc), i), a, format!("expected {}:{}, got {:?}", line, col, o.end));
                 }
             }
+        }
         }
     }
     if (all || prop == "C06") && which == "aig" {
